@@ -327,6 +327,22 @@ const TEMPLATES: &[Template] = &[
     t("match-value", "r := match {0} { ({1}) => t(1, 1), => t(2, 2), }; return (r, *log)", &["int", "int"]),
     t("match-type", "r := match {0} { v: int => v OP {1}, => 0, }; return (r, *log)", &["int", "int"]),
     t("if-set", "r := if v: int = {0} { v OP {1} } else { 0 }; return (r, *log)", &["int", "int"]),
+    // binder type width: the type test of if-set / while-set / a match type arm on a constant is
+    // `matches`, not equality - binder types wider than, equal to and disjoint from the constant's type
+    t("if-set-union-binder", "r := if v: int|float = {0} { t(1, 1) } else { t(2, 2) }; return (r, *log)", &["int"]),
+    t("if-set-union-binder-float", "r := if v: int|float = {0} { t(1, 1) } else { t(2, 2) }; return (r, *log)", &["float"]),
+    t("if-set-any-binder", "r := if v: any = {0} { t(1, 1) } else { t(2, 2) }; return (r, *log)", &["int"]),
+    t("if-set-disjoint-binder", "r := if v: float|string = {0} { t(1, 1) } else { t(2, 2) }; return (r, *log)", &["int"]),
+    t("if-set-array-union-binder", "r := if v: [int|float] = [{0}] { t(1, 1) } else { t(2, 2) }; return (r, *log)", &["int"]),
+    t("if-set-tuple-union-binder", "r := if v: (int|float, any) = ({0}, true) { t(1, 1) } else { t(2, 2) }; return (r, *log)", &["int"]),
+    t("if-set-struct-union-binder", "r := if v: struct{a: int|float} = struct{ a := {0} } { t(1, 1) } else { t(2, 2) }; return (r, *log)", &["int"]),
+    t("if-set-bound-name", "x := {0}; r := if v: int|float = x { v OP {1} } else { t(2, 2) }; return (r, *log)", &["int", "int"]),
+    t("while-set-union-binder", "n := mut 0; while v: int|float = {0} { n += 1; t(1, 1); if *n >= 2 { break } }; return (*n, *log)", &["int"]),
+    t("while-set-any-binder", "n := mut 0; while v: any = {0} { n += 1; t(1, 1); if *n >= 2 { break } }; return (*n, *log)", &["int"]),
+    t("while-set-disjoint-binder", "n := mut 0; while v: float = {0} { n += 1; t(1, 1); if *n >= 2 { break } }; return (*n, *log)", &["int"]),
+    t("match-type-union-arm", "r := match {0} { v: int|float => t(1, 1), => t(2, 2), }; return (r, *log)", &["int"]),
+    t("match-type-any-arm", "r := match {0} { v: string => t(3, 3), v: any => t(1, 1), }; return (r, *log)", &["int"]),
+    t("match-type-array-union-arm", "r := match [{0}] { v: [float] => t(3, 3), v: [int|float] => t(1, 1), => t(2, 2), }; return (r, *log)", &["int"]),
     t("for-over-constants", "acc := mut 0; for e in [{0}, {1}]~ { acc += t(1, e) }; return (*acc, *log)", &["int", "int"]),
     t("reduce-constants", "r := [{0}, {1}]~ $ 0 (acc: int, e: int) -> int { return acc OP e }; return (r, *log)", &["int", "int"]),
     t("nested-arith", "return (({0} OP {1}) OP ({1} OP {0}), *log)", &["int", "int"]),
